@@ -1,24 +1,10 @@
-/* C43 family (c) only (spec key rt_extra): memset model for the one symbolic-length fill of the run.
- * buildCpuToL3Map's `std::vector<int32_t> cpuToL3(maxCpu, -1)` is lowered by clang to memset(p, 0xff, 4 * maxCpu)
- * with maxCpu = max(hardware_concurrency, largest L3 cpu id + 1), symbolic as soon as the L3 lists hold symbolic
- * ids.  CBMC's built-in memset with a symbolic length on a symbolic-size object does not terminate in symbolic
- * execution (> 900 s); the same semantics written as a bounded word loop is cheap.  Zero fills (constant-size
- * struct initialisation in this code) keep the built-in.  A non-zero fill that is not a whole number of at most
- * VF_C43_FILL_MAX 32-bit words is an `rt:` failure (run inconclusive), never silently mis-modelled. */
-#ifndef VF_C43_FILL_MAX
-#define VF_C43_FILL_MAX 32
-#endif
-void vf_memset(void *d, uint8_t c, uint64_t n) {
-  if (c == 0) {
-    __builtin_memset(d, 0, n);
-    return;
-  }
-  __CPROVER_assert(n % 4 == 0 && n / 4 <= VF_C43_FILL_MAX, "rt: non-zero memset is a whole number of <= VF_C43_FILL_MAX words");
-  uint32_t w = (uint32_t)c * 0x01010101u;
-  uint32_t *p = (uint32_t *)d;
-  for (uint64_t i = 0; i < VF_C43_FILL_MAX; ++i) {
-    if (i >= n / 4) break;
-    p[i] = w;
-  }
+/* C43 family (c) only (spec key rt_extra).  The topo instances run CBMC in path-exploration mode (--paths lifo:
+ * every control path is executed on its own with full constant propagation instead of merging states at joins, so
+ * that std::vector sizes / capacities / buffers stay literal on every path).  CBMC's builtin __CPROVER_deallocate
+ * records the freed pointer under `if(nondet)` - a *branch*, which doubles the number of paths per free().  This is
+ * the same nondeterministic choice as a branch-free conditional expression (same override as harness/C27/paths_rt.c). */
+_Bool nondet_bool(void);
+void __CPROVER_deallocate(void *ptr) {
+  _Bool r = nondet_bool();
+  __CPROVER_deallocated = r ? ptr : __CPROVER_deallocated;
 }
-#define vf_memset vf_memset_rt_builtin
